@@ -1,29 +1,142 @@
-(* props/C20.v — property theorems for C20 (deletion removes exactly the requested data):
-   the interval-set core, tombstones.Intervals.Add. Nothing but statements; proofs are in
-   proof/IntervalsProofs.v. *)
-From Coq Require Import List ZArith.
-From Verif Require Import lib.Int64 model.Intervals proof.IntervalsProofs.
+(* props/C20.v — property theorems for C20 (deletion removes exactly the requested data).
+   Nothing but statements; proofs are in proof/IntervalsProofs.v (interval sets),
+   proof/DeleteHistProofs.v (histories) and proof/TombFileProofs.v (tombstone files).
+
+   FULL STATEMENT of the first sentence (what the property asks): for every configuration and
+   every history ops1 ++ Delete mint maxt sel :: ops2 of commits, deletions, head / out-of-order
+   compactions, tombstone cleaning and restarts, every query of the implementation returns no
+   sample of a selected series inside [mint, maxt] that was not stored by ops2, and every other
+   sample unchanged.  Proved here:
+     - on the flat "live samples" specification, in full (C20_delete_exact_spec: equality of every
+       query answer with del_answer of the answer before; C20_no_resurrection_spec: arbitrary
+       later operations);
+     - for the structured TSDB model of C01 (head with tombstones clamped by Head.Delete, blocks
+       with Block.Delete tombstones, tombstone-aware head compaction, CleanTombstones, WAL
+       tombstone replay): the Delete step in full (C20_delete_step_exact), and histories whose
+       suffix after the Delete consists of compactions, tombstone cleanings and restarts
+       (C20_delete_history_partial).  The latter is `_partial` because it INHERITS the assumptions
+       of C01_refinement_partial: wf_ops (admission facts of accepted samples; no out-of-order
+       head sample of a selected series inside a Delete range; and, for every Restart and
+       CompactPending step, that the step re-establishes the invariant and preserves the visible
+       sample set — assumed, not proved, false in two C01 findings) and dead_covered of the final
+       state (false in C01 finding F6).  The six C01_refuted lemmas of props/C01.v (five of them
+       contain a Delete) show the unrestricted statement is false of the code as it is. *)
+From Coq Require Import List NArith ZArith Bool.
+From Verif Require Import lib.Int64 lib.Bytes model.Intervals proof.IntervalsProofs.
+From Verif Require Import model.TsdbSpec model.Tsdb proof.TsdbProofs model.DeleteHist proof.DeleteHistProofs.
+From Verif Require Import model.TombFile proof.TombFileProofs.
 Import ListNotations.
 Open Scope Z_scope.
 
+(* ================= second sentence: the interval-set core, tombstones.Intervals.Add ========= *)
+
 (* Adding to a canonical (sorted, disjoint, non-adjacent) interval list never panics ... *)
-Theorem C20_add_total : forall ivs n, canonical ivs -> wf_iv n -> exists r, add ivs n = Ok r.
+Theorem C20_add_total : forall ivs n, canonical ivs -> wf_iv n -> exists r, add ivs n = Intervals.Ok r.
 Proof. exact add_total. Qed.
 
 (* ... yields a canonical list covering exactly the old timestamps plus the new interval ... *)
-Theorem C20_add_canonical : forall ivs n r, canonical ivs -> wf_iv n -> add ivs n = Ok r ->
-  canonical r /\ forall t, covered r t <-> covered ivs t \/ imin n <= t <= imax n.
+Theorem C20_add_canonical : forall ivs n r, canonical ivs -> wf_iv n -> add ivs n = Intervals.Ok r ->
+  canonical r /\ forall t, Intervals.covered r t <-> Intervals.covered ivs t \/ imin n <= t <= imax n.
 Proof. exact add_canonical. Qed.
 
 (* ... hence every interval set reachable from the empty one by any sequence of deletions. *)
 Theorem C20_adds_reachable : forall ns, Forall wf_iv ns ->
-  exists r, fold_add [] ns = Ok r /\ canonical r /\
-            forall t, covered r t <-> Exists (fun n => imin n <= t <= imax n) ns.
+  exists r, fold_add [] ns = Intervals.Ok r /\ canonical r /\
+            forall t, Intervals.covered r t <-> Exists (fun n => imin n <= t <= imax n) ns.
 Proof. exact adds_reachable. Qed.
 
 (* The code before "fix: tombstones: Intervals.Add ... MaxInt64" violated totality. *)
-Theorem C20_add_old_refuted : exists ivs n, canonical ivs /\ wf_iv n /\ add_old ivs n = Panic.
+Theorem C20_add_old_refuted : exists ivs n, canonical ivs /\ wf_iv n /\ add_old ivs n = Intervals.Panic.
 Proof. exact add_old_refuted. Qed.
 
 Example C20_nonvacuous : canonical [mkI 1 2; mkI 10 20] /\ wf_iv (mkI 5 maxInt64).
 Proof. exact nonvacuous_example. Qed.
+
+(* ================= first sentence: histories ================================================ *)
+
+(* On the flat specification a Delete changes EVERY query answer exactly as del_answer says: the
+   points of the selected series inside [mint, maxt] disappear (a series left empty is absent),
+   every other point of every series stays, in the same order, with the same values. *)
+Theorem C20_delete_exact_spec : forall (sp : sstate) (mint maxt : Z) (sel : list sid) (qmin qmax : Z) (qsel : list sid),
+  spec_query (spec_step sp (SDelete mint maxt sel)) qmin qmax qsel =
+  del_answer mint maxt sel (spec_query sp qmin qmax qsel).
+Proof. exact delete_exact_spec. Qed.
+
+(* ... and whatever happens later (commits, further deletes, maintenance), a live sample of a
+   selected series inside the range was acknowledged after the Delete. *)
+Theorem C20_no_resurrection_spec : forall (ops1 ops2 : list sop) mint maxt sel i x,
+  In x (spec_run (ops1 ++ SDelete mint maxt sel :: ops2) i) -> In i sel -> mint <= st x <= maxt ->
+  acked_in ops2 i x.
+Proof. exact no_resurrection_spec. Qed.
+
+(* The Delete step of the structured model (Head.Delete with both clampings and the WAL record,
+   Block.Delete on the overlapping blocks) removes from the visible samples exactly [mint, maxt] of
+   the selected series, from any state satisfying the C01 invariant, provided no out-of-order head
+   sample of a selected series lies in the range (C01 findings F1/F2 otherwise). *)
+Theorem C20_delete_step_exact : forall (c : cfg) (s : state) mint maxt sel,
+  wf_cfg c -> inv c s -> wf_delete (s_head s) mint maxt sel ->
+  inv c (delete mint maxt sel s) /\
+  sequiv (abs (delete mint maxt sel s)) (spec_step (abs s) (SDelete mint maxt sel)).
+Proof. exact delete_step_exact. Qed.
+
+(* Histories (partial: inherits wf_ops — incl. the ASSUMED refinement step of every Restart /
+   CompactPending — and dead_covered from C01_refinement_partial, see the header): after any
+   well-formed history, a Delete, and any suffix of head compactions, out-of-order compactions,
+   tombstone cleanings and restarts, every query of the structured model answers like the
+   specification's answer before the Delete with exactly the deleted points removed. *)
+Theorem C20_delete_history_partial : forall (c : cfg) (ops1 ops2 : list op) mint maxt sel,
+  wf_cfg c -> wf_ops c state0 (ops1 ++ Delete mint maxt sel :: ops2) ->
+  forallb is_maint ops2 = true ->
+  dead_covered (run c (ops1 ++ Delete mint maxt sel :: ops2)) ->
+  forall qmin qmax qsel,
+    answer_equiv (query (run c (ops1 ++ Delete mint maxt sel :: ops2)) qmin qmax qsel)
+                 (del_answer mint maxt sel (spec_query (spec_run (map spec_of_op ops1)) qmin qmax qsel)).
+Proof. exact delete_history_partial. Qed.
+
+(* non-vacuity: two series, negative and positive times, an out-of-order sample compacted into its
+   own block, a head compaction (blocks [-2000,-1000) and [0,1000)), then Delete(120, 1750) across
+   two blocks and the head, tombstone cleaning, another Compact / CompactOOO: all hypotheses hold
+   and of the eight visible samples exactly the five in range are gone *)
+Example C20_history_nonvacuous :
+  (wf_cfg ex_cfg /\ wf_ops ex_cfg state0 (ex_ops1 ++ Delete 120 1750 [0; 1] :: ex_ops2)) /\
+  forallb is_maint ex_ops2 = true /\
+  dead_covered (run ex_cfg (ex_ops1 ++ Delete 120 1750 [0; 1] :: ex_ops2)) /\
+  query (run ex_cfg (ex_ops1 ++ Delete 120 1750 [0; 1] :: ex_ops2)) minInt64 maxInt64 [0; 1]
+    = [(0, [(-1500, [1]); (2700, [8])]); (1, [(1800, [7])])] /\
+  spec_query (spec_run (map spec_of_op ex_ops1)) minInt64 maxInt64 [0; 1]
+    = [(0, [(-1500, [1]); (900, [3]); (1700, [6]); (2700, [8])]); (1, [(150, [2]); (400, [5]); (950, [4]); (1800, [7])])].
+Proof. exact ex_all. Qed.
+
+(* ================= third sentence: tombstone files ========================================== *)
+
+(* For EVERY checksum function, every list of groups handed to WriteFile (any order, repeated
+   refs, overlapping / adjacent / unsorted intervals; refs uint64, bounds int64, mint <= maxt),
+   ReadTombstones of the written bytes succeeds and returns the canonical form: every interval
+   re-added through MemTombstones.AddInterval -> Intervals.Add ... *)
+Theorem C20_tombstone_file_roundtrip : forall (crc : list N -> N) (stones : list stone),
+  wf_stones stones -> read_file crc (write_file crc stones) = canon stones.
+Proof. exact tombstone_file_roundtrip. Qed.
+
+(* ... which exists, has strictly increasing refs and no empty group, and holds for every ref the
+   sorted / disjoint / non-adjacent list covering exactly the union of the intervals written for it *)
+Theorem C20_tombstone_canonical_form : forall stones, wf_stones stones ->
+  exists m, canon stones = ROk m /\ refs_incr m /\ Forall (fun s => snd s <> []) m /\
+    forall ref, exists r, fold_add [] (ivs_of ref (flatten stones)) = Intervals.Ok r /\ get m ref = r /\
+                          canonical r /\
+                          forall t, Intervals.covered r t <-> Exists (fun n => (imin n <= t <= imax n)%Z) (ivs_of ref (flatten stones)).
+Proof. exact canon_spec. Qed.
+
+(* What a MemTombstones can hold (strictly increasing refs, non-empty canonical groups) reads back
+   EXACTLY as written. *)
+Theorem C20_tombstone_file_roundtrip_exact : forall crc stones,
+  stones_canonical stones -> read_file crc (write_file crc stones) = ROk stones.
+Proof. exact tombstone_file_roundtrip_exact. Qed.
+
+(* the fuel of the model's decode loop is not a restriction *)
+Theorem C20_tombstone_decode_fuel : forall fuel bs m, (length bs <= fuel)%nat -> decode_loop fuel bs m <> RErr RFuel.
+Proof. exact decode_loop_fuel_enough. Qed.
+
+Example C20_tombstone_nonvacuous : forall crc : list N -> N,
+  stones_canonical ex_stones /\ wf_stones ex_stones /\
+  read_file crc (write_file crc ex_stones) = ROk ex_stones /\ length (write_file crc ex_stones) = 49%nat.
+Proof. exact ex_stones_ok. Qed.
